@@ -1373,7 +1373,7 @@ def make_cover(g, text):
     lines = text.split("\n")
     ins = []
     for f in g.fns:
-        if not f.get("has_body") or f.get("external_body"):
+        if not f.get("has_body") or f.get("external_body") or ":macro" in f.get("src", ""):
             continue
         # the body's `{` : first line in [start,end] that (after the signature/clauses) ends with `{`
         for ln in range(f["start"], f["end"] + 1):
